@@ -10,7 +10,7 @@ from vv.verdict import Report
 
 import vivarium  # noqa
 from vivarium.core.store import Store, hierarchy_depth
-from vivarium.core.process import assoc_in
+from vivarium.core.process import assoc_in, Process
 from vivarium.library.topology import (
     normalize_path, get_in, assoc_path, delete_in, update_in,
     dict_to_paths, paths_to_dict)
@@ -19,14 +19,25 @@ LAWS = ['LawWalkIsNormalize', 'LawNormalizeIdempotent', 'LawPathTo',
         'LawPathFor', 'LawMoveKeepsTheAlgebra', 'LawGetAssoc', 'LawDelete', 'LawLeafRoundTrip']
 
 
-def build_tree(paths):
+class Idle(Process):
+    def ports_schema(self):
+        return {}
+
+    def next_update(self, timestep, states):
+        return {}
+
+
+def build_tree(paths, procs=False):
     root = Store({})
     paths = [list(p) for p in paths]
     for p in sorted(paths, key=len):
         if p:
-            # the nodes without children are declared variables
+            # the nodes without children are declared variables (procs: they
+            # hold processes - a process node is a place in the tree like any other)
             inner = any(q[:len(p)] == p and len(q) > len(p) for q in paths)
-            root._establish_path(tuple(p), {} if inner else {'_default': 1})
+            leaf = {'_value': Idle(), '_updater': 'set', '_topology': {}} if procs \
+                else {'_default': 1}
+            root._establish_path(tuple(p), {} if inner else leaf)
     return root
 
 
@@ -48,12 +59,16 @@ def build_dict(dn, lf):
     return d
 
 
-def check_tree(rep, entry):
+def check_tree(rep, entry, procs=False):
     tree = entry['tree']
-    root = build_tree(tree)
+    root = build_tree(tree, procs)
     nnodes = count_nodes(root)
     bad = []
     for frm, p, walk, norm in entry['walk']:
+        if procs and walk == ['UNDEF']:
+            # (walking below a process node means walking into its ports:
+            #  not a matter of the tree)
+            continue
         rep.evaluations += 1
         node = root.get_path(tuple(frm))
         try:
@@ -91,7 +106,7 @@ def check_tree(rep, entry):
     # LawMoveKeepsTheAlgebra: move one top-level subtree under another (every
     # path_for has been asked above, before the move)
     tops = sorted(k for k in root.inner)
-    if len(tops) >= 2 and not bad:
+    if len(tops) >= 2 and not bad and not procs:
         src, dst = tops[0], tops[1]
         node = root.inner[src]
         root.inner[dst].add_node(('z',), node)
@@ -224,6 +239,8 @@ def run(rep, tier, scratch, only=None):
         for e in cases:
             if e['kind'] == 'tree':
                 rep.guard(check_tree, rep, e, what='tree case', detail=e.get('tree'))
+                rep.guard(check_tree, rep, e, True, what='tree case (process nodes)',
+                          detail=e.get('tree'))
             else:
                 rep.guard(check_dict, rep, e, what='dictionary case',
                           detail=[e.get('dn'), e.get('lf')])
